@@ -65,7 +65,7 @@ if meta.get('patch_applies'):
     try:
         for cid in [pid] + extra:
             t0 = time.time()
-            rr = sh(f'./run {cid} --tier quick', cwd='/verif')
+            rr = sh(f"./run {cid} --tier {os.environ.get('EVAL_TIER', 'quick')}", cwd='/verif')
             lines = rr.stdout.splitlines()
             kinds = [l.strip().split(' ')[0].replace('kind=', '') for l in lines if l.strip().startswith('kind=')]
             results[cid] = {'rc': rr.returncode, 'violation_lines': sum(1 for l in lines if l.startswith('VIOLATION')), 'kinds': kinds, 'wall_s': round(time.time() - t0, 1),
@@ -85,7 +85,7 @@ if confirmed:
     if os.path.exists(os.path.join(src, 'notes.md')):
         shutil.copy(os.path.join(src, 'notes.md'), out + '/notes.md')
         meta['needs_to_manifest'] = open(os.path.join(src, 'notes.md')).read()[:1500]
-    meta['what_was_run'] = ['tools/baseline.py on a scratch worktree with the patch (66 stable tests)', 'demo.py with and without the patch', 'git -C /repo apply patch.diff; ./run <ID> --tier quick; git -C /repo checkout -- .']
+    meta['what_was_run'] = ['tools/baseline.py on a scratch worktree with the patch (66 stable tests)', 'demo.py with and without the patch', f"git -C /repo apply patch.diff; ./run <ID> --tier {os.environ.get('EVAL_TIER', 'quick')}; git -C /repo checkout -- ."]
     json.dump(meta, open(out + '/meta.json', 'w'), indent=1)
 print(json.dumps({k: meta[k] for k in ('name', 'confirmed_property_breaking_and_tests_green', 'detected_by') if k in meta}), {c: (v['rc'], v['kinds'][:3]) for c, v in results.items()})
 if not confirmed:
